@@ -36,6 +36,7 @@ func init() {
 	register(cutScn{})
 	register(hostileScn{})
 	register(clientScn{})
+	register(lifecycleScn{})
 }
 
 // RunOpts are per-execution options that do not belong to the plan.
